@@ -15,7 +15,7 @@ CHECKS = {
              'leaves filled (1-2 repetitions; thorough 3 with an empty middle one, all leaf pairs inside a field, all field '
              'pairs, escape-language words), feeds it to parse_segment / parse_field / parse_component and, wrapped in a '
              'message whose structure lists the segment, to parse_message with find_groups on and off under default and two '
-             'custom delimiter sets, and requires to_er7() to return the input. Complete for the stated shapes; leaf text is '
+             'custom delimiter sets and one set that differs from the default in a single role, and requires to_er7() to return the input. Complete for the stated shapes; leaf text is '
              'one literal per datatype.',
         note='trusted: reference ER7 encoder (generator) and the tables as definition of positions; 34 known table defects keyed per (version, segment)'),
     'C02': dict(
@@ -40,7 +40,8 @@ CHECKS = {
              'encoding_chars must read back on the message and on every descendant, and parse_message(to_er7()) must recover the '
              'set. Every single-defect set (each key missing, each pair of roles equal incl. truncation, non-dict, malformed '
              'MSH-2) must raise InvalidEncodingChars at three entry points, as the first thing the process sees and again after '
-             'the valid sets it derives from have been used; the reference text with a Z segment and with a standard segment the '
+             'the valid sets it derives from have been used, and when assigned to an existing message; sets that differ from the default in '
+             'one role and the independence of the dictionary read back from other messages are checked per version; the reference text with a Z segment and with a standard segment the '
              'structure does not list must re-encode identically with group finding on and off.',
         note='trusted: reference encoder/escaper; pool excludes characters that occur in the recipe content'),
     'C09': dict(
@@ -51,7 +52,7 @@ CHECKS = {
              'all histories up to depth 3 (thorough 4) over an alphabet of ~68 operations (set by name / lower case / long name / '
              'element, proxy[i]=, children[i]=, add, add_<child> helper, del, del proxy[i], remove, pop, copy from a donor by '
              'proxy and by element, donor mutations, reads and a refused write through the proxy of a child - which leave temporary '
-             'traversal children behind) are explored after canonical state merging (~16,000 states, ~125,000 '
+             'traversal children behind, writes through the proxy, copies addressed by long name; one root whose by-name entry was emptied) are explored after canonical state merging (~16,000 states, ~125,000 '
              'transitions in quick); after each accepted transition the per-name repetition texts, the children order and the '
              'ER7 encoding of root and donor must equal those of an insertion-ordered list of (name, text) entries.',
         note='trusted: the list model (100 lines), reference encoder; 3 child names and 2 values per root; canonical key drops only the proxy memo'),
@@ -77,7 +78,7 @@ CHECKS = {
              'root (13 chains x 3 observers: len+iteration+repr+empty slice+bool in one, the chain walked twice, and the element at '
              'the end dereferenced through .value / .to_er7() / .children; root '
              'to_er7 / validate / children; writes by assignment, .value and datatype object at the end of each chain); all '
-             'histories to depth 3 (thorough 4). A read must leave encoding, recursive listing and validation report identical; '
+             'histories to depth 3 (thorough: 4 from five roots, 3 from the others). A read must leave encoding (also with trailing children), recursive listing and validation report identical; '
              'a write must produce the reference encoding of old content + value at that position and the newly listed elements '
              'must lie on one path. Sweep: every leaf path of every 4th (thorough: every) segment of v2.5 (+2.8.2, 2.3) is read '
              'on an empty segment, then written.',
@@ -115,7 +116,7 @@ CHECKS = {
              'must hold exactly the element written (identity) with the written value; after a delete through one spelling every '
              'other spelling must be empty; the only child of every base-datatype field of every segment of every version is '
              'addressed by datatype name (three cases) and by position. ~3.4 million (write spelling, read spelling) pairs in quick. Per parent, names that '
-             'designate no child (a child of another parent, index past the last, index 99, malformed paths) must raise '
+             'designate no child (a child of another parent, index past the last, index 99, index 0 and negative indices, malformed paths) must raise '
              'ChildNotFound / ChildNotValid for get, set and delete and leave the parent unchanged.',
         note='trusted: the tables as definition of names; 251 long names excluded (duplicated in the parent or equal to an attribute of the element class)'),
     'C15': dict(
@@ -173,7 +174,7 @@ CHECKS = {
              'is reported, by the message and by each group instance validated on its own. For every segment of 2.5 (thorough: all '
              'versions) each ST/NM/ID/IS/SI leaf field gets its datatype swapped in the profile; the child created by traversal '
              'read, traversal write, add_* helpers, parse_message(message_profile=), text assignment and assignment of an element '
-             'copied from a message built without the profile must carry the profile datatype, and a STRICT parse must refuse a value only valid for the standard datatype. Shipped ITI-21 profile, a '
+             'copied from a message built without the profile must carry the profile datatype (also one level down: a subcomponent datatype swapped below a complex component), and a STRICT parse must refuse a value only valid for the standard datatype. Shipped ITI-21 profile, a '
              'profile lacking the structure (MessageProfileNotFound) and the legacy files (LegacyMessageProfile) are checked.',
         note='trusted: profile synthesiser (same tuple shape as the shipped profile); children listed twice in a structure (D12) are blocked'),
     'C19': dict(
@@ -182,7 +183,8 @@ CHECKS = {
                   'before every library line (sys.monitoring), iterative preemption bounding, result equality with the sequential run '
                   'plus a frame-condition audit of all process-wide library state',
         text='171 two- and three-thread harnesses over a corpus of 20 factory / build / parse / encode / validate bodies (incl. fields '
-             'beyond the table of Z and varies-ended segments, and a highlights list shared by the callers) '
+             'beyond the table of Z and varies-ended segments, a highlights list shared by the callers, a structure that lists a child name '
+             'twice, a number beyond the default decimal precision, a custom-delimiter parse against a nested-group parse) '
              '(forced collision on one version, and mixed version/level variants) are executed under every schedule with at '
              'most 2 preemptions (small x small), 1 preemption (small/medium x medium, 3 threads) and both serial orders '
              '(large bodies) in the quick tier, ~470,000 complete executions; thorough raises the bounds (3 / 1 at bytecode '
@@ -200,7 +202,9 @@ CHECKS = {
              '20) structures per version all words up to length 3 (4) over {3 in-structure names, a foreign name, ZZZ} are appended '
              'to MSH; one line per level carries an element beyond the defined count (fields, components, subcomponents, '
              'components / subcomponents inside base-datatype fields, repetitions beyond the maximum) and a field of datatype varies holds '
-             'components, subcomponents and repetitions with empty ones before valued ones. Each text (~33,000 in quick) '
+             'components, subcomponents and repetitions with empty ones before valued ones; every line of the all-children instance '
+             'is duplicated in place; for adjacent versions (both directions) a message with one field beyond the older count is '
+             'parsed before the newer message that values that field and the last one; values at withdrawn field numbers (D17). Each text (~33,000 in quick) '
              'is parsed with find_groups on and off: either an HL7apyException surfaces or the encoded result has the same segment '
              'names in the same order and the same non-empty leaves per segment; both settings must agree.',
         note='trusted: reference decoder; instance generator reads the tables; structures with anomalous rows are blocked (82)'),
@@ -226,7 +230,7 @@ CHECKS = {
              'with an error text naming the mutated child (its parent for unnamed elements). On every conforming and one mutated '
              'instance per structure: encoding and recursive listing unchanged by validate(), two calls report equally, is_valid '
              '== (errors == []), the raising form raises exactly errors[0] (type and text) or returns True, and the report '
-             'written to a file object and to a path consists exactly of the Error:/Warning: lines of the returned lists. Z segments '
+             'written to a file object and to a path consists exactly of the Error:/Warning: lines of the returned lists. A foreign child attached and removed again (remove / del / pop) leaves a conforming message. Z segments '
              'holding conforming fields of two or three different complex datatypes (adjacent pairs of the datatype list in both '
              'orders; thorough: all ordered pairs), alone and inside a conforming message, must validate, and must name the '
              'component when one required component is left out.',
@@ -241,7 +245,7 @@ CHECKS = {
              'all-leaves shape (also inside a host message) are parsed under STRICT and TOLERANT (~230,000 texts): whatever STRICT '
              'accepts TOLERANT accepts with the same encoding and validation report, the validator finds nothing but missing '
              'required children on it, and STRICT refuses every invalid and over-long value - also when TOLERANT has processed the '
-             'same text before in the same process. Five twin roots (Segment parsed and '
+             'same text before in the same process - and one repetition more than every bounded maximum. Five twin roots (Segment parsed and '
              'empty, Field, Message, Group) are driven in lock step through 31 operations to depth 2 (thorough 3), including the '
              'seven kinds STRICT must refuse (cardinality overflow, foreign child, unnamed child, datatype override, datatype '
              'cleared then overridden, invalid value, over-long value) and writes through traversal proxies kept from earlier.',
@@ -258,7 +262,7 @@ CHECKS = {
              'reference (no raw delimiter, no lone escape), re-encoded (idempotence), and compared with the input when '
              'the input is already escaped; end to end, every string <= 3 is assigned as a datatype object at field, '
              'component and subcomponent level of a message with custom delimiters and the separator counts are compared, and '
-             'the same segment on its own, encoded with the set passed explicitly to to_er7(), must give the same text. Ordered '
+             'the same segment on its own, encoded with the set passed explicitly to to_er7(), must give the same text (the set being the dictionary read from the message while another message is alive). Ordered '
              'units (fresh process each): every class after every other class, and each class under its delimiter sets in every '
              'order with strings over the union of their alphabets. '
              'Complete within the bounds; says nothing about longer strings or other characters.',
